@@ -13,11 +13,13 @@ if binary is None:
             break
 # choose the binary from the file name when several harnesses serve one property (e.g. C01-bytes-..., C09_args-...)
 base = os.path.basename(path)
+flavour = "asan"
 for st in plan["quick"] + plan.get("thorough", []):
     b = st.get("binary")
     if b and base.startswith(b + "-"):
         binary = b
-r = subprocess.run([os.path.join(HERE, "bin", "build.sh"), "asan", binary], stdout=subprocess.PIPE, text=True)
+        flavour = st.get("flavour", "asan")
+r = subprocess.run([os.path.join(HERE, "bin", "build.sh"), flavour, binary], stdout=subprocess.PIPE, text=True)
 if r.returncode != 0:
     print("CHECK-BROKEN build failed"); sys.exit(2)
 exe = os.path.join(r.stdout.strip().splitlines()[-1], "h", binary)
